@@ -164,3 +164,53 @@ Proof.
   apply In_combine_seq. split; [lia|]. rewrite Nat.sub_0_r. exact Hmi.
 Qed.
 
+
+(* ---- checkers for the hypotheses of the bases / alias theorems ---- *)
+Definition plain_importsb (p : project) : bool := forallb (fun mi => forallb plain_stmt (m_stmts mi)) p.
+
+Lemma plain_importsb_sound p : plain_importsb p = true -> plain_imports p.
+Proof.
+  unfold plain_importsb, plain_imports. rewrite forallb_forall. intros H m mi st Hmi Hst.
+  assert (Hin : In mi p) by (unfold modinfo_of in Hmi; eapply nth_error_In; exact Hmi).
+  specialize (H mi Hin). rewrite forallb_forall in H. exact (H st Hst).
+Qed.
+
+Fixpoint nodupN (l : list N) : bool := match l with [] => true | x :: l' => negb (memN x l') && nodupN l' end.
+Lemma nodupN_NoDup l : nodupN l = true -> NoDup l.
+Proof.
+  induction l as [|x l IH]; cbn [nodupN]; [constructor|]. rewrite andb_true_iff, negb_true_iff. intros [Hn Hl].
+  constructor; [apply memN_false; exact Hn|apply IH; exact Hl].
+Qed.
+
+Definition bind_onceb (p : project) : bool :=
+  forallb (fun km => let m := N.of_nat (fst km) in let mi := snd km in
+                     nodupN (import_names mi) &&
+                     forallb (fun a => negb (memN a (def_names mi)) && negb (memN a (submodule_names p m))) (import_names mi))
+          (combine (seq 0 (length p)) p).
+
+Lemma bind_onceb_sound p : bind_onceb p = true -> bind_once p.
+Proof.
+  unfold bind_onceb, bind_once. rewrite forallb_forall. intros H m mi Hmi.
+  specialize (H (N.to_nat m, mi)). cbn [fst snd] in H. rewrite N2Nat.id in H.
+  assert (Hin : In (N.to_nat m, mi) (combine (seq 0 (length p)) p)) by (apply In_combine_seq; split; [lia|rewrite Nat.sub_0_r; exact Hmi]).
+  specialize (H Hin). apply andb_true_iff in H. destruct H as [H1 H2]. split; [apply nodupN_NoDup; exact H1|].
+  rewrite forallb_forall in H2. intros a Ha. specialize (H2 a Ha). apply andb_true_iff in H2. destruct H2 as [A B].
+  apply negb_true_iff in A. apply negb_true_iff in B. split; apply memN_false; assumption.
+Qed.
+
+Definition no_shadow_rootsb (p : project) : bool :=
+  forallb (fun km => let m := N.of_nat (fst km) in let mi := snd km in
+                     forallb (fun r => negb (memN r (def_names mi)) &&
+                                       forallb (fun aq => negb (N.eqb (fst aq) r) || path_eqb (snd aq) [r]) (static_alias p m))
+                             (root_names p))
+          (combine (seq 0 (length p)) p).
+
+Lemma no_shadow_rootsb_sound p : no_shadow_rootsb p = true -> no_shadow_roots p.
+Proof.
+  unfold no_shadow_rootsb, no_shadow_roots. rewrite forallb_forall. intros H m mi r Hmi Hr.
+  specialize (H (N.to_nat m, mi)). cbn [fst snd] in H. rewrite N2Nat.id in H.
+  assert (Hin : In (N.to_nat m, mi) (combine (seq 0 (length p)) p)) by (apply In_combine_seq; split; [lia|rewrite Nat.sub_0_r; exact Hmi]).
+  specialize (H Hin). rewrite forallb_forall in H. specialize (H r Hr). apply andb_true_iff in H. destruct H as [A B].
+  split; [apply memN_false; apply negb_true_iff; exact A|]. rewrite forallb_forall in B. intros q Hq. specialize (B (r, q) Hq). cbn [fst snd] in B.
+  rewrite N.eqb_refl in B. cbn [negb orb] in B. apply path_eqb_eq. exact B.
+Qed.
